@@ -604,3 +604,8 @@ fn verif_neg_cases() {
 
 // C10 / C11 glue harness (unit u4)
 mod gr_glue { include!(concat!(env!("VERIF_HX_DIR"), "/daemon/event_gr_hx.rs")); }
+
+// C16, admission decision (accept_connection and friends)
+mod accept_hx {
+    include!(concat!(env!("VERIF_HX_DIR"), "/daemon/event_accept_hx.rs"));
+}
